@@ -277,7 +277,10 @@ def _breakage_pair_is_joined_pair(ck):
             ck.ok("C20.10", f"molecule_indels.find_conflict_place:starting-part", wb, "chosen by comparing first pairs with the joined record")
             continue
         if isinstance(b.value, ast.Call) and isinstance(b.value.func, ast.Name):
-            helper = p.find_function(fn.module.name, b.value.func.id)
+            try:
+                helper = p.find_function(fn.module.name, b.value.func.id)
+            except AnalysisError:
+                helper = None
             if helper is not None and any(
                     isinstance(x, ast.Compare) and len(x.ops) == 1 and isinstance(x.ops[0], (ast.Eq, ast.NotEq))
                     and ast.unparse(x.left).endswith(".alignedPairs[0]") and ast.unparse(x.comparators[0]).endswith(".alignedPairs[0]")
